@@ -450,9 +450,16 @@ package dsl
 //@   ensures instantiated_generics_are_checked: typeof(node) == *SimpleType && node.(*SimpleType) != nil && node.(*SimpleType).ResolvedDefinition != nil && len(node.(*SimpleType).ResolvedDefinition.GetDefinitionMeta().TypeArguments) > 0 ==> called("dsl.(Visitor).Visit")
 
 // Array dimension rules are checked on every array, and the pass always descends (arrays nest inside vectors, maps ...).
+//@ spec func arrDimsOf(n Node) *ArrayDimensions = n.(*Array).Dimensions
 //@ func validateArrayAndVectorDimensions$1
 //@   property C09
+//@   requires errorSink != nil
 //@   ensures always_descends: called("dsl.(Visitor).VisitChildren")
+// "inconsistent array dimensions": lengths given on some dimensions but not on all of them is an error
+//@   invariant 0: nullLengthCount >= 0 && notNullLengthCount >= 0
+//@   invariant 0: (nullLengthCount > 0) <==> (exists k in 0..rangeindex+1 :: (*t.Dimensions)[k].Length == nil)
+//@   invariant 0: (notNullLengthCount > 0) <==> (exists k in 0..rangeindex+1 :: (*t.Dimensions)[k].Length != nil)
+//@   ensures mixed_lengths_are_an_error: typeof(node) == *Array && node.(*Array) != nil && arrDimsOf(node) != nil && (exists a in 0..len(*arrDimsOf(node)) :: (*arrDimsOf(node))[a].Length == nil) && (exists b in 0..len(*arrDimsOf(node)) :: (*arrDimsOf(node))[b].Length != nil) ==> called("validation.(*ErrorSink).Add")
 
 // A stream is only legal directly as a protocol step: the nearest enclosing definition must be a protocol.
 //@ func validateStreams$1
@@ -486,37 +493,37 @@ package dsl
 //@ func detectStreamChanges
 //@   property C06
 //@   requires newType != nil && oldType != nil
-//@   ensures non_stream_to_stream_is_incompatible: typeof(oldType.Dimensionality) != *Stream ==> typeof(result) == *TypeChangeIncompatible
-//@   ensures element_change_is_carried: typeof(oldType.Dimensionality) == *Stream && innerChange != nil ==> typeof(result) == *TypeChangeStreamTypeChanged && result.(*TypeChangeStreamTypeChanged).InnerChange == innerChange
-//@   ensures unchanged_is_no_change: typeof(oldType.Dimensionality) == *Stream && innerChange == nil ==> result == nil
+//@   ensures non_stream_to_stream_is_incompatible: typeof(old(oldType.Dimensionality)) != *Stream ==> typeof(result) == *TypeChangeIncompatible
+//@   ensures element_change_is_carried: typeof(old(oldType.Dimensionality)) == *Stream && innerChange != nil ==> typeof(result) == *TypeChangeStreamTypeChanged && result.(*TypeChangeStreamTypeChanged).InnerChange == innerChange
+//@   ensures unchanged_is_no_change: typeof(old(oldType.Dimensionality)) == *Stream && innerChange == nil ==> result == nil
 //@ func detectVectorChanges
 //@   property C06
 //@   requires newType != nil && oldType != nil && typeof(newType.Dimensionality) == *Vector && newType.Dimensionality.(*Vector) != nil
-//@   requires typeof(oldType.Dimensionality) == *Vector ==> oldType.Dimensionality.(*Vector) != nil
-//@   ensures non_vector_to_vector_is_incompatible: typeof(oldType.Dimensionality) != *Vector ==> typeof(result) == *TypeChangeIncompatible
-//@   ensures fixed_versus_variable_is_incompatible: typeof(oldType.Dimensionality) == *Vector && (vecLen(oldType) == nil) != (vecLen(newType) == nil) ==> typeof(result) == *TypeChangeIncompatible
-//@   ensures changed_length_is_incompatible: typeof(oldType.Dimensionality) == *Vector && vecLen(oldType) != nil && vecLen(newType) != nil && *vecLen(oldType) != *vecLen(newType) ==> typeof(result) == *TypeChangeIncompatible
-//@   ensures same_shape_carries_element_change: typeof(oldType.Dimensionality) == *Vector && ((vecLen(oldType) == nil && vecLen(newType) == nil) || (vecLen(oldType) != nil && vecLen(newType) != nil && *vecLen(oldType) == *vecLen(newType))) ==> (innerChange == nil ==> result == nil) && (innerChange != nil ==> typeof(result) == *TypeChangeVectorTypeChanged && result.(*TypeChangeVectorTypeChanged).InnerChange == innerChange)
+//@   requires typeof(old(oldType.Dimensionality)) == *Vector ==> oldType.Dimensionality.(*Vector) != nil
+//@   ensures non_vector_to_vector_is_incompatible: typeof(old(oldType.Dimensionality)) != *Vector ==> typeof(result) == *TypeChangeIncompatible
+//@   ensures fixed_versus_variable_is_incompatible: typeof(old(oldType.Dimensionality)) == *Vector && (old(vecLen(oldType)) == nil) != (old(vecLen(newType)) == nil) ==> typeof(result) == *TypeChangeIncompatible
+//@   ensures changed_length_is_incompatible: typeof(old(oldType.Dimensionality)) == *Vector && old(vecLen(oldType)) != nil && old(vecLen(newType)) != nil && old(*vecLen(oldType)) != old(*vecLen(newType)) ==> typeof(result) == *TypeChangeIncompatible
+//@   ensures same_shape_carries_element_change: typeof(old(oldType.Dimensionality)) == *Vector && ((old(vecLen(oldType)) == nil && old(vecLen(newType)) == nil) || (old(vecLen(oldType)) != nil && old(vecLen(newType)) != nil && old(*vecLen(oldType)) == old(*vecLen(newType)))) ==> (innerChange == nil ==> result == nil) && (innerChange != nil ==> typeof(result) == *TypeChangeVectorTypeChanged && result.(*TypeChangeVectorTypeChanged).InnerChange == innerChange)
 //@ spec func arrDims(t *GeneralizedType) *ArrayDimensions = t.Dimensionality.(*Array).Dimensions
 //@ spec func sameDim(a *ArrayDimension, b *ArrayDimension) bool = (a.Length == nil) == (b.Length == nil) && (a.Length != nil ==> *a.Length == *b.Length)
 //@ func detectArrayChanges
 //@   property C06
 //@   requires newType != nil && oldType != nil && typeof(newType.Dimensionality) == *Array && newType.Dimensionality.(*Array) != nil
-//@   requires typeof(oldType.Dimensionality) == *Array ==> oldType.Dimensionality.(*Array) != nil
+//@   requires typeof(old(oldType.Dimensionality)) == *Array ==> oldType.Dimensionality.(*Array) != nil
 //@   invariant 0: forall k in 0..rangeindex+1 :: sameDim((*arrDims(newType))[k], (*arrDims(oldType))[k])
-//@   ensures non_array_to_array_is_incompatible: typeof(oldType.Dimensionality) != *Array ==> typeof(result) == *TypeChangeIncompatible
-//@   ensures dimensions_added_or_removed_is_incompatible: typeof(oldType.Dimensionality) == *Array && (arrDims(oldType) == nil) != (arrDims(newType) == nil) ==> typeof(result) == *TypeChangeIncompatible
-//@   ensures changed_rank_is_incompatible: typeof(oldType.Dimensionality) == *Array && arrDims(oldType) != nil && arrDims(newType) != nil && len(*arrDims(oldType)) != len(*arrDims(newType)) ==> typeof(result) == *TypeChangeIncompatible
-//@   ensures changed_extent_is_incompatible: typeof(oldType.Dimensionality) == *Array && arrDims(oldType) != nil && arrDims(newType) != nil && len(*arrDims(oldType)) == len(*arrDims(newType)) && (exists k in 0..len(*arrDims(newType)) :: !sameDim((*arrDims(newType))[k], (*arrDims(oldType))[k])) ==> typeof(result) == *TypeChangeIncompatible
+//@   ensures non_array_to_array_is_incompatible: typeof(old(oldType.Dimensionality)) != *Array ==> typeof(result) == *TypeChangeIncompatible
+//@   ensures dimensions_added_or_removed_is_incompatible: typeof(old(oldType.Dimensionality)) == *Array && (arrDims(oldType) == nil) != (arrDims(newType) == nil) ==> typeof(result) == *TypeChangeIncompatible
+//@   ensures changed_rank_is_incompatible: typeof(old(oldType.Dimensionality)) == *Array && arrDims(oldType) != nil && arrDims(newType) != nil && len(*arrDims(oldType)) != len(*arrDims(newType)) ==> typeof(result) == *TypeChangeIncompatible
+//@   ensures changed_extent_is_incompatible: typeof(old(oldType.Dimensionality)) == *Array && arrDims(oldType) != nil && arrDims(newType) != nil && len(*arrDims(oldType)) == len(*arrDims(newType)) && (exists k in 0..len(*arrDims(newType)) :: !sameDim((*arrDims(newType))[k], (*arrDims(oldType))[k])) ==> typeof(result) == *TypeChangeIncompatible
 //@   ensures changed_element_is_incompatible: innerChange != nil ==> typeof(result) == *TypeChangeIncompatible
-//@   ensures unchanged_is_no_change: typeof(oldType.Dimensionality) == *Array && innerChange == nil && ((arrDims(oldType) == nil && arrDims(newType) == nil) || (arrDims(oldType) != nil && arrDims(newType) != nil && len(*arrDims(oldType)) == len(*arrDims(newType)) && (forall k in 0..len(*arrDims(newType)) :: sameDim((*arrDims(newType))[k], (*arrDims(oldType))[k])))) ==> result == nil
+//@   ensures unchanged_is_no_change: typeof(old(oldType.Dimensionality)) == *Array && innerChange == nil && ((arrDims(oldType) == nil && arrDims(newType) == nil) || (arrDims(oldType) != nil && arrDims(newType) != nil && len(*arrDims(oldType)) == len(*arrDims(newType)) && (forall k in 0..len(*arrDims(newType)) :: sameDim((*arrDims(newType))[k], (*arrDims(oldType))[k])))) ==> result == nil
 //@ func detectMapChanges
 //@   property C06
 //@   requires newType != nil && oldType != nil && typeof(newType.Dimensionality) == *Map && newType.Dimensionality.(*Map) != nil
-//@   requires typeof(oldType.Dimensionality) == *Map ==> oldType.Dimensionality.(*Map) != nil
-//@   ensures non_map_to_map_is_incompatible: typeof(oldType.Dimensionality) != *Map ==> typeof(result) == *TypeChangeIncompatible
-//@   ensures changed_key_or_value_is_incompatible: typeof(oldType.Dimensionality) == *Map && (lastResult(compareTypes) != nil || innerChange != nil) ==> typeof(result) == *TypeChangeIncompatible
-//@   ensures unchanged_is_no_change: typeof(oldType.Dimensionality) == *Map && lastResult(compareTypes) == nil && innerChange == nil ==> result == nil
+//@   requires typeof(old(oldType.Dimensionality)) == *Map ==> oldType.Dimensionality.(*Map) != nil
+//@   ensures non_map_to_map_is_incompatible: typeof(old(oldType.Dimensionality)) != *Map ==> typeof(result) == *TypeChangeIncompatible
+//@   ensures changed_key_or_value_is_incompatible: typeof(old(oldType.Dimensionality)) == *Map && (lastResult(compareTypes) != nil || innerChange != nil) ==> typeof(result) == *TypeChangeIncompatible
+//@   ensures unchanged_is_no_change: typeof(old(oldType.Dimensionality)) == *Map && lastResult(compareTypes) == nil && innerChange == nil ==> result == nil
 //@ func detectOptionalChanges
 //@   property C06
 //@   requires newType != nil && oldType != nil
